@@ -1,43 +1,17 @@
 #!/bin/bash
-# usage: selfcheck.sh <property-id|all> [fixture-name-glob]
-# Runs the firing / silent fixtures of a property: each fixtures/<id>/<name>.patch is
-# applied to a scratch copy of /repo (never to /repo itself); the checker must report
-# exactly the expected obligation keys (firing) or nothing new (silent).
+# usage: selfcheck.sh <property-id|all>
+# Runs the firing / silent fixtures of a property: each fixtures/<id>/<name>.patch is applied to copies
+# of the files it touches (never to /repo itself) and the resulting variant of /repo's CURRENT tree is
+# analysed in-process (eng.Base.Variant: the touched packages and their importers are re-type-checked
+# from source, everything else is shared). The checker must report the expected obligation keys
+# (firing fixtures) or nothing new (silent fixtures: behaviour-preserving edits).
 set -u
 here=$(cd "$(dirname "$0")/.." && pwd)
 . "$here/env.sh"
-id=${1:?id}; pat=${2:-*}
+id=${1:?id}
 repo=${VERIF_REPO:-/repo}
-bin="$here/bin/gtcheck"
-ids=$id; [ "$id" = all ] && ids=$(ls "$here/fixtures" 2>/dev/null)
-fail=0; nfire=0; nsilent=0
-work=$(mktemp -d /tmp/gtsc.XXXXXX); trap 'rm -rf "$work"' EXIT
-run_one() { # patchfile propid
-  local pf=$1 pid=$2 name d out expect
-  name=$(basename "$pf" .patch); d="$work/$pid-$name"
-  mkdir -p "$d"; rsync -a --exclude .git "$repo/" "$d/"
-  if ! (cd "$d" && patch -p1 -s --no-backup-if-mismatch < "$pf" >/dev/null 2>&1); then echo "SELFCHECK-STALE $pid/$name: patch does not apply to the current tree (fixture needs re-basing; not a property verdict)"; rm -rf "$d"; return 3; fi
-  out=$("$bin" -repo "$d" -props "$pid" -evidence "" -known "$here/known_findings.json" 2>&1)
-  rm -rf "$d"
-  expect=$(grep -m1 '^# expect:' "$pf" | sed 's/^# expect: *//')
-  local got; got=$(echo "$out" | grep -E '^\s+\S+: \[(violated|undecided)\]' | sed -E 's/^.*\] //' | sort -u)
-  if [ "$expect" = silent ]; then
-    if [ -n "$got" ]; then echo "SELFCHECK-FAIL $pid/$name: expected silence, got:"; echo "$got" | sed 's/^/    /'; return 1; fi
-    echo "selfcheck ok   $pid/$name: silent (behaviour-preserving edit)"; return 0
-  fi
-  local ok=1
-  for e in $expect; do
-    echo "$got" | grep -q -F -- "$e" || { ok=0; echo "SELFCHECK-FAIL $pid/$name: expected a report matching '$e'; got:"; echo "${got:-<nothing>}" | sed 's/^/    /'; echo "$out" | grep -E '^ERROR' | head -3; }
-  done
-  [ $ok = 1 ] && { echo "selfcheck ok   $pid/$name: fired $(echo "$got" | wc -l) report(s) incl. $expect"; return 0; }
-  return 1
-}
-export -f run_one; export here bin work repo
-list=()
-for pid in $ids; do for pf in "$here"/fixtures/$pid/$pat.patch; do [ -f "$pf" ] && list+=("$pf $pid"); done; done
-[ ${#list[@]} -eq 0 ] && { echo "selfcheck: no fixtures for $id"; exit 0; }
-printf '%s\n' "${list[@]}" | xargs -P 2 -L 1 bash -c 'run_one $0 $1' > "$work/out.txt" 2>&1
-cat "$work/out.txt"
-grep -q 'SELFCHECK-FAIL' "$work/out.txt" && fail=1
-echo "selfcheck: $(grep -c 'selfcheck ok' "$work/out.txt") ok, $(grep -c SELFCHECK-FAIL "$work/out.txt") failed, $(grep -c SELFCHECK-STALE "$work/out.txt") stale of ${#list[@]} fixtures"
-exit $fail
+props=$id; [ "$id" = all ] && props=""
+if [ ! -x "$here/bin/mutrun" ] || [ -n "$(find "$here/checker" -name '*.go' -newer "$here/bin/mutrun" -print -quit 2>/dev/null)" ]; then
+  (cd "$here/checker" && go build -o "$here/bin/mutrun" ./cmd/mutrun) || { echo "ERROR: cannot build mutrun"; exit 2; }
+fi
+exec "$here/bin/mutrun" -repo "$repo" -fixtures "$here/fixtures" -fixture-props "$props" -known "$here/known_findings.json"
